@@ -8,7 +8,7 @@ DOM-2  condition before call        DOM-3  callback once, after drain
 """
 import ast
 
-from sa.model import src, short, dotted, call_attr, call_recv, kwarg, walk_local, AnalysisError
+from sa.model import src, short, dotted, call_attr, call_recv, kwarg, walk_local, AnalysisError, const_value
 from sa.helpers import (own, recv_is, self_in_classes, is_snapshot, base_container, merge_sources,
                         feasible_paths, container_ops)
 from sa.index import get_index
@@ -468,6 +468,25 @@ def _priority_value(chk, f_add):
     if names_bound:
         chk.ob("PRIO-1", "the priority suffix parsed from the event string is applied", used, f_add.where(),
                construct=f_add.ident, text="additional_priority parsed but unused")
+    # ... and it is the whole suffix: the number is parsed from everything after the dot, the event name is everything before it
+    f_par = chk.repo.func(EV, EM + ".get_event_and_condition_from_string")
+    chk.analysed(f_par)
+    dots = [x for x in walk_local(f_par.node) if isinstance(x, ast.Assign) and isinstance(x.targets[0], ast.Name) and isinstance(x.value, ast.Call) and
+            call_attr(x.value) == "find" and x.value.args and isinstance(x.value.args[0], ast.Constant) and x.value.args[0].value == "."]
+    chk.need(len(dots) == 1, "PRIO-1", "the event-string parser looks for the priority suffix (`.N`)", f_par)
+    dv, subj = dots[0].targets[0].id, src(dots[0].value.func.value)
+    nums = [x for x in walk_local(f_par.node) if isinstance(x, ast.Assign) and src(x.targets[0]) == "additional_priority" and isinstance(x.value, ast.Call)]
+    ok = False
+    if len(nums) == 1 and isinstance(nums[0].value.func, ast.Name) and nums[0].value.func.id == "int" and len(nums[0].value.args) == 1:
+        a = nums[0].value.args[0]
+        ok = isinstance(a, ast.Subscript) and src(a.value) == subj and isinstance(a.slice, ast.Slice) and a.slice.upper is None and a.slice.step is None and \
+            a.slice.lower is not None and src(a.slice.lower).replace(" ", "") in (dv + "+1", "1+" + dv)
+    chk.ob("PRIO-1", "the priority suffix is the whole text after the dot (`event.12` adds 12, not 1)", ok, f_par.where(nums[0]) if nums else f_par.where(),
+           detail=src(nums[0].value) if nums else "no int(...) of the suffix", construct=f_par.ident, text="priority suffix extent")
+    cuts = [x for x in walk_local(f_par.node) if isinstance(x, ast.Assign) and src(x.targets[0]) == subj and isinstance(x.value, ast.Subscript) and
+            src(x.value.value) == subj and isinstance(x.value.slice, ast.Slice) and x.value.slice.upper is not None and src(x.value.slice.upper) == dv]
+    ok = any(x.value.slice.lower is None or const_value(x.value.slice.lower) == 0 for x in cuts)
+    chk.ob("PRIO-1", "the event name is the whole text before the dot", ok, f_par.where(), construct=f_par.ident, text="event name before the suffix")
     # the @event_handler(relative_priority) decorator of this module stores the attribute on handlers
     decorated = any(isinstance(n, ast.Attribute) and n.attr == "relative_priority" and isinstance(n.ctx, ast.Store)
                     for m in chk.repo.modules.values() for n in ast.walk(m.tree) if m.relpath.startswith("mpf/core/"))
@@ -1087,6 +1106,7 @@ def battery():
         M("async handler loses priority", E, "partial(self._async_handler_coroutine, handler), priority, blocking_facility,", "partial(self._async_handler_coroutine, handler), 1, blocking_facility,", "FWD-1"),
         M("async coroutine called without kwargs", E, "asyncio.create_task(_coroutine(**kwargs))", "asyncio.create_task(_coroutine())", "FWD-1"),
         M("queue callback without kwargs", E, "        if callback:\n            callback(**kwargs)", "        if callback:\n            callback()", "FWD-1"),
+        M("priority suffix read as one digit", E, "                additional_priority = int(event_string[priority_start + 1:])", "                additional_priority = int(event_string[priority_start + 1])", "PRIO-1"),
         M("event-string priority suffix ignored", E, "        priority += additional_priority\n", "", "PRIO-1"),
         M("relative priority subtracted", E, "priority += handler.relative_priority", "priority -= handler.relative_priority", "PRIO-1"),
         M("relative priority not applied", E, "            priority += handler.relative_priority\n", "            pass\n", "PRIO-1"),
